@@ -42,6 +42,7 @@ LEVEL = {
                    "invocations, yields) with the stdlib's for every input and step count.",
     "technique": "static analysis: pending-at-pull dataflow, path counting, short-circuit / islice / zip_longest tables by abstract evaluation",
 }
+LEVEL["decided"] += ' (R05.11) the single-source tool tables of R01.12 (items taken and callable invocations per cell); (R05.12) a groupby group the parent has moved past ends without touching the source (R16.1, shared).'
 
 TOOLS = c01.PASS_THROUGH + c01.TRANSFORMING
 # look-behind windows are recognised structurally (the held item is yielded together with the newly
